@@ -608,8 +608,8 @@ func workerMain(st Stream, from, to int, progressPath, resultPath string, budget
 					envStart = i + 1
 				} else {
 					// a class already confirmed in this child: keep the interpreter (Clear/Reset done)
-					a.Standalone = true
-					a.Msg = pi.msg + " (not re-tried)"
+					a.Standalone = false
+					a.Msg = pi.msg + " (not re-tried in a fresh interpreter)"
 				}
 				if seenPanic[key] <= 40 {
 					b, _ := json.Marshal(a)
